@@ -58,7 +58,7 @@ def gen_target(rng, depth, minlen=0):
     """a branch path relative to the process's parent"""
     p = ups(rng, depth)
     n = rng.randint(minlen, 2)
-    if rng.random() < 0.15 and p:
+    if rng.random() < 0.15:
         # '..' in the middle: down into a compartment and back up
         p = p + [rng.choice(BRANCH), '..']
     return p + [rng.choice(BRANCH) for _ in range(n)]
